@@ -25,7 +25,7 @@ import (
 type hxOut = hx.Out
 type hxRng = hx.Rng
 
-var mode = flag.String("mode", "model", "model|e2e|routing|merge|wsend|wresp")
+var mode = flag.String("mode", "model", "model|e2e|routing|merge|mget|wsend|wresp")
 
 const tickLinger = 15 * time.Millisecond
 
@@ -94,6 +94,12 @@ func genBatchCase(r *hx.Rng, nextID *int, allowRetry *int) (bcfg, []behaviour, [
 	closes := 0
 	ticks := 0
 	malformed := r.Chance(4)
+	// calls of size zero: rare in most cases, the majority in some (batches made only of them, alone, first, last)
+	zeroPct := 8
+	if r.Chance(15) {
+		zeroPct = 60
+	}
+	zeroRangeUsed := false
 	for i := 0; i < nev; i++ {
 		x := r.Intn(100)
 		switch {
@@ -114,7 +120,20 @@ func genBatchCase(r *hx.Rng, nextID *int, allowRetry *int) (bcfg, []behaviour, [
 				kind = hx.Pick(r, []byte{'p', 'g', 'd'})
 			}
 			size := 0
-			if kind != 'g' {
+			zero := false
+			switch {
+			case kind == 'g':
+				if r.Chance(10) {
+					size = 1 // marker: a get of the empty key
+				}
+			case r.Chance(zeroPct) && (kind != 'r' || !zeroRangeUsed):
+				// a call without key material (Delete(""), Put("", nil), DeleteRange("", "")): getByteSize is 0
+				zero = true
+				if kind == 'r' {
+					zeroRangeUsed = true
+				}
+			}
+			if kind != 'g' && !zero {
 				size = minSize(id) + hx.Pick(r, []int{0, 0, 1, 2, 3, 4, 6, 8, 10, 14, 30})
 				// make exact fits of the byte limit frequent
 				if cfg.maxBytes >= minSize(id) && cfg.maxBytes < 100 && r.Chance(25) {
@@ -542,6 +561,61 @@ func doMgetCase(o *hx.Out, r *hx.Rng, kc string, orig string, n int, arr []marri
 	checkMultiGetSpec(o, kc, orig, n, arr, res, "mget "+in)
 }
 
+// mgetStressKeys: candidates of the SAME depth whose non-final segment is a proper prefix of the other's followed by a
+// byte below '/' (slash order a/x < a-b/x, byte order a-b/x < a/x), neighbours of different depth, long segments
+var mgetStressKeys = []string{
+	"a/x", "a-b/x", "a-b/x0", "a.b/x", "a b/x", "a!/x", "a/a", "a/b", "a0/x", "b/x", "a/x/y", "a-b/x/y", "a", "a-b", "a/",
+	"zzzzzzzzz/x", "zzzzzzzzz-/x", "zzzzzzzzz./x", "zzzzzzzzzz/x", "zzzzzzzz/x", "abcdefgh/i", "abcdefgh-i/x", "abcdefgh.i/x",
+	"longsegment/a", "longsegment-/a", "longsegment./a", "longsegment0/a", "longsegmen/t", "k/1", "k-/1", "k0/1", "k/1/2", "k-1/2/3",
+}
+
+func genMgetKey(r *hx.Rng) string {
+	switch r.Intn(10) {
+	case 0, 1, 2, 3, 4:
+		return hx.Pick(r, mgetStressKeys)
+	case 5, 6, 7:
+		return genSlashKey(r)
+	default:
+		return genKey(r)
+	}
+}
+
+// genMgetStressCase: a comparison get over 2..5 shards whose answers (primary or secondary-index flavour) come from the
+// comparer-stressing keys; one answer per shard
+func genMgetStressCase(r *hx.Rng) (string, string, int, []marrival) {
+	kc := hx.Pick(r, []string{"floor", "lower", "ceil", "higher"})
+	orig := genMgetKey(r)
+	n := 2 + r.Intn(4)
+	index := r.Bool()
+	seen := map[string]bool{}
+	var arr []marrival
+	for i := 0; i < n; i++ {
+		if r.Chance(6) {
+			arr = append(arr, marrival{isErr: true, code: 1 + i})
+			continue
+		}
+		if r.Chance(15) {
+			arr = append(arr, marrival{status: 'n', pay: 10 + i})
+			continue
+		}
+		k := genMgetKey(r)
+		for seen[k] {
+			k = genMgetKey(r)
+		}
+		seen[k] = true
+		a := marrival{status: 'o', pay: 10 + i}
+		if index {
+			// the ordering key is the secondary key; the primary key is whatever record carries it
+			pk := genMgetKey(r)
+			a.key, a.sec = &pk, &k
+		} else {
+			a.key = &k
+		}
+		arr = append(arr, a)
+	}
+	return kc, orig, n, arr
+}
+
 func genMgetCase(r *hx.Rng) (string, string, int, []marrival) {
 	kc := hx.Pick(r, []string{"eq", "floor", "floor", "lower", "ceil", "ceil", "higher"})
 	orig := genKey(r)
@@ -663,6 +737,17 @@ func replayLine(o *hx.Out, r *hx.Rng, line string) {
 	}
 }
 
+// a/x (612f78) and a-b/x0 (612d622f7830) on two shards: floor / lower of b/x is a-b/x0, ceiling / higher of a/a is a/x;
+// the same with the keys as secondary-index keys
+var mgetFixed = []string{
+	"mget 0 1 floor 622f78 2 Ro:612f78:*:1,Ro:612d622f7830:*:2",
+	"mget 0 1 lower 622f78 2 Ro:612d622f7830:*:2,Ro:612f78:*:1",
+	"mget 0 1 ceil 612f61 2 Ro:612d622f7830:*:2,Ro:612f78:*:1",
+	"mget 0 1 higher 612f61 2 Ro:612f78:*:1,Ro:612d622f7830:*:2",
+	"mget 0 1 floor 622f78 3 Ro:70:612f78:1,Rn:*:*:2,Ro:71:612d622f7830:3",
+	"mget 0 1 ceil 612f61 2 Ro:70:612d622f7830:2,Ro:71:612f78:1",
+}
+
 func main() {
 	if len(os.Args) == 3 && os.Args[1] == "shutc-child" {
 		shutcChild(os.Args[2])
@@ -677,6 +762,38 @@ func main() {
 	defer o.Close()
 	r := hx.NewRng(f.Seed)
 
+	if *mode == "mget" {
+		// C11 leg: floor / lower / ceiling / higher across shards follow the slash order
+		replay := hx.CorpusLines(f.Corpus)
+		if f.Replay != "" {
+			replay = hx.ReadLines(f.Replay)
+		}
+		for _, line := range replay {
+			if strings.HasPrefix(line, "mget ") {
+				replayLine(o, r.Fork(), line)
+			}
+		}
+		if f.Replay != "" {
+			return
+		}
+		for _, l := range mgetFixed {
+			replayLine(o, r.Fork(), l)
+		}
+		for i := 0; i < f.N && o.NViol < 30; i++ {
+			kc, orig, n, arr := genMgetStressCase(r)
+			doMgetCase(o, r, kc, orig, n, arr)
+			if i%3 == 0 && n <= 4 && len(arr) == n {
+				for _, p := range permutations(n) {
+					ordered := make([]marrival, n)
+					for k, j := range p {
+						ordered[k] = arr[j]
+					}
+					doMgetCase(o, r, kc, orig, n, ordered)
+				}
+			}
+		}
+		return
+	}
 	if *mode == "merge" {
 		// C11 leg: multi-shard merge of sorted per-shard streams, keys from the comparer-stressing alphabet
 		sigOrder, sigLost, sigDup = "scan:merged-out-of-slash-order", "scan:merge-lost-or-duplicated", "scan:merge-lost-or-duplicated"
@@ -810,6 +927,13 @@ func main() {
 		"batch 0 r:1:3:0 p1+ok C1:g:0,C2:g:0,C3:g:0", // one answer streamed, retriable failure, then success
 		"batch 0 r:1:4:0 p2+p3+ok,p0+e5 C1:g:0,C2:g:0,C3:g:0,C4:g:0,C5:g:0,T",
 		"batch 0 w:0:3:100 p0+ok,p0+p0+e4 C1:p:4,C2:d:4",
+		"batch 0 w:0:10:100 - C1:d:0,C2:p:0,C3:r:0",                                // calls without key material, each alone in its batch (linger 0)
+		"batch 0 w:1:1:100 - C1:d:0,C2:p:4,C3:p:0",                                 // count limit 1
+		"batch 0 w:1:2:100 - C1:d:0,C2:p:4,C3:p:4,C4:p:0,C5:d:0,C6:r:0,T,C7:d:0,X", // first / last / only zero-size calls
+		"batch 0 w:1:10:4 - C1:p:0,C2:p:8,C3:d:0,T",                                // a call above the byte limit after a zero-size one
+		"batch 0 w:1:10:0 - C1:d:0,C2:d:0,C3:p:4,T",                                // byte limit 0: zero-size calls fit, anything else travels alone
+		"batch 0 r:0:10:0 - C1:g:1,C2:g:0",                                         // get of the empty key
+		"batch 0 r:1:2:0 e3 C1:g:1,C2:g:1,C3:g:0,T",
 		"batch 0 w:1:5:1000 - C1:p:4,X,X", // second Close
 		"batch 0 w:1:5:1000 - C1:g:0",     // wrongly typed call
 		"stream 0 1 s1:1,x,r7,x",
@@ -833,6 +957,8 @@ func main() {
 		"listc 0 1 E5|k63:0,k64:0 F0,C,G1",
 		"listc 0 1 k61:0|k63:0,k64:0|k65:0 F1,F0,C,G2,G1",
 		"listc 0 1 -|- -",
+		"mget 0 1 floor 622f78 2 Ro:612f78:*:1,Ro:612d622f7830:*:2",
+		"mget 0 1 ceil 612f61 2 Ro:70:612d622f7830:2,Ro:71:612f78:1",
 		"mget 0 1 floor 6b 2 E1,E2",
 		"mget 0 1 ceil 6b 3 E1,Ro:61:*:5,E3",
 		"mget 0 1 floor 6b 1 Rn:*:*:5",
@@ -873,6 +999,10 @@ func main() {
 		}
 		if i%4 == 0 {
 			doMgetAllOrders(o, r)
+		}
+		if i%2 == 0 {
+			kc, orig, n, arr := genMgetStressCase(r)
+			doMgetCase(o, r, kc, orig, n, arr)
 		}
 		if i%10 == 0 {
 			wb := 0 // no retriable connection failures here: each costs the batch's backoff
